@@ -22,6 +22,8 @@ class SimFile(object):
         self.hid = hid
         self._closed = False
         self.close_calls = 0
+        self.local_reads = 0          # read-type events of this handle
+        self.fail_local = None        # set of local read ordinals that raise EIO (transient: each fires once)
         self._pos = 0
         self._append = 'a' in mode
         self._can_read = 'r' in mode or '+' in mode
@@ -46,6 +48,14 @@ class SimFile(object):
 
     def _read_fault(self):
         fs = self.fs
+        j = self.local_reads
+        self.local_reads += 1
+        if self.fail_local and j in self.fail_local:
+            self.fail_local.discard(j)
+            fs.read_events += 1
+            fs.faults_fired['eio'] = fs.faults_fired.get('eio', 0) + 1
+            self._ev('eio', self._pos, 0, 0)
+            raise OSError(errno.EIO, 'injected transient I/O error (read %d of this handle)' % j)
         k = fs.read_events
         fs.read_events += 1
         if fs.fail_reads and k in fs.fail_reads:
